@@ -1,7 +1,7 @@
 (* Properties_C11.v — the theorems that decide property C11 on the model, each stated in full and closed by
    `exact <lemma>`; the lemmas live in the Proofs_*.v files.  Nothing else belongs in this file. *)
 From Coq Require Import Sorting.Sorted.
-From Theo Require Import Base Regex Tokens Errors MacroExtract Grammar LR Gen_MacroGrammar Gen_Consts MacroApply SpecLex SpecMacro MacroStatements Proofs_Macro.
+From Theo Require Import Base Regex Tokens Errors MacroExtract Grammar LR Gen_MacroGrammar Gen_Consts MacroApply SpecLex SpecMacro MacroStatements Proofs_Macro PipelineStatements Lexer Scan Parser VMModel GenModel Compile Gen_Lexer CompileStatements ApplyStatements ApplyCompleteStatements LocErrStatements Proofs_Pipeline.
 Local Open Scope Z_scope.
 
 
@@ -31,3 +31,14 @@ Theorem C11_growth_step :
     (length out <= length input + length (m_repl (d_macro (fst c))) * Nat.max 1 (list_max (map (@length token) (r_matched (snd c)))))%nat.
 Proof. exact C11_growth_step_proof. Qed.
 Print Assumptions C11_growth_step.
+
+Theorem C11_compiled :
+  forall files main c out macros bins,
+    compile files main = Ok c -> cr_ok c = true ->
+    front files main out macros bins ->
+    exists k final root,
+      (k <= N.to_nat macro_passes)%nat /\ Steps bins out 0 k final /\
+      (forall pass, try_bins false bins final pass = Ok None) /\
+      parse_tokens final = Ok (root, []).
+Proof. exact C11_compiled_proof. Qed.
+Print Assumptions C11_compiled.
